@@ -103,7 +103,18 @@ def runtime_namespace(extra=None):
     def same_elements(a, b):
         return set(a) == set(b)
 
-    ns.update(implies=implies, distinct=distinct, is_sorted=is_sorted, updated=updated, removed=removed,
+    def reach1(graph, a, b):
+        seen, st = set(), list(graph[a].jump_targets)
+        while st:
+            x = st.pop()
+            if x in seen:
+                continue
+            seen.add(x)
+            if x in graph:
+                st.extend(graph[x].jump_targets)
+        return b in seen
+
+    ns.update(reach1=reach1, implies=implies, distinct=distinct, is_sorted=is_sorted, updated=updated, removed=removed,
               without=without, card=card, get=get, same_elements=same_elements, replace=dataclasses.replace)
     from numba_scfg.core.datastructures import basic_block as bb
     for n in dir(bb):
